@@ -104,6 +104,12 @@ theorem recover_store {n : Nat} {s0 s' : St α} {act : Array (ActiveEdge α)} (h
     (h3 : s'.spans = s0.spans) (h4 : s'.curVertex = s0.curVertex) (h5 : s'.active = act) : Inv1 n s' :=
   h0.frame h1 h2 h3 h4 (by rw [h5, hact]; exact swapLast_ok h0.active')
 
+/-- the same when the store goes through `modify` on a later state `s` (coverage marks in between) -/
+theorem recover_store_frame {n : Nat} {s0 s s' : St α} {act : Array (ActiveEdge α)} (h0 : Inv1 n s0) (hs : Inv1 n s)
+    (hact : act = swapLast s0.active) (h1 : s'.nverts = s.nverts) (h2 : s'.out = s.out)
+    (h3 : s'.spans = s.spans) (h4 : s'.curVertex = s.curVertex) (h5 : s'.active = act) : Inv1 n s' :=
+  hs.frame h1 h2 h3 h4 (by rw [h5, hact]; exact swapLast_ok h0.active')
+
 theorem mem_of_mem_pop {γ : Type} {a : Array γ} {x : γ} (h : x ∈ a.pop) : x ∈ a := by
   rcases Array.mem_iff_getElem.mp h with ⟨k, hk, e⟩
   rw [Array.getElem_pop] at e
@@ -138,6 +144,12 @@ theorem recoverFromError_spec (n : Nat) :
        case h0 => assumption
        case hs => assumption)
     | (apply recover_store
+       case h5 => rfl
+       case hact => rfl
+       case h0 => assumption
+       all_goals rfl)
+    | (apply recover_store_frame
+       case hs => assumption
        case h5 => rfl
        case hact => rfl
        case h0 => assumption
